@@ -1,13 +1,11 @@
 #!/bin/sh
-# Re-runs every registered quick check on the unchanged tree from a frozen copy of /verif HEAD and writes the
-# evidence files into /verif/evidence (to be committed). usage: tools/refresh_evidence.sh [ID ...]
-set -e
-SNAP=/tmp/verif_evsnap_$$
-git -C /verif worktree add --detach "$SNAP" HEAD -q
-mkdir -p "$SNAP/build"; cp -r /verif/build/obj /verif/build/bin "$SNAP/build/" 2>/dev/null || true
+# Re-runs every registered quick check in /verif itself against /repo's working tree (never from a snapshot) and so
+# rewrites /verif/evidence/<ID>.json (to be committed). Nothing else should be running meanwhile.
+# usage: tools/refresh_evidence.sh [ID ...]
+cd "$(dirname "$0")/.." || exit 1
+unset VERIF_ONLY_BUILDS VERIF_EVIDENCE_DIR VERIF_REPO
 IDS="$*"
-[ -n "$IDS" ] || IDS=$(python3 -c "import json;print(' '.join(c['property_id'] if 'property_id' in c else c['id'] for c in json.load(open('/verif/MANIFEST.json'))['checks']))")
+[ -n "$IDS" ] || IDS=$(python3 -c "import json;print(' '.join(c['property_id'] for c in json.load(open('MANIFEST.json'))['checks']))")
 for id in $IDS; do
-  (cd "$SNAP" && VERIF_SEED=1 VERIF_TIER=quick VERIF_EVIDENCE_DIR=/verif/evidence ./check $id 2>&1 | grep -v "^\[build" | cut -c1-200 | tail -3)
+  VERIF_SEED=1 VERIF_TIER=quick ./check "$id" --tier quick 2>&1 | grep -v "^\[build" | cut -c1-200 | tail -3
 done
-git -C /verif worktree remove --force "$SNAP"
